@@ -453,7 +453,8 @@ pub fn register_upvalue<T>(
     let c = resolve_closure(closure)?;
 
     if is_local {
-        let location = &vm.runtime_data.value_stack.as_slice()[index as usize];
+        // `index` numbers the locals of the function that creates the closure
+        let location = &vm.runtime_data.value_stack.as_slice()[stack_offset(vm) + index as usize];
         let location = (location as *const Value).cast_mut();
         // the position of `location` in the list of open upvalues (sorted, highest first):
         // (the upvalue in front of it, the first upvalue that is not above it)
